@@ -1,6 +1,7 @@
 """C02: fetch decoding yields a gap-free run of complete messages from the asked offset."""
 import kproto
 from val import T, dumps
+from props import common
 from props.common import boot_ops, brokers, fp, rand_bytes, rand_topic
 
 SLICE = "fetch Response/Topic/Partition/MessageSet::from_slice decoding (plain, gzip, xerial snappy, nested) behind KafkaClient::fetch_messages"
@@ -372,6 +373,7 @@ def served_case(rng):
                     log.append(wrapper(rng, offs, codec=None if codec == "mixed-wrappers" else codec))
             logs[(t, p)] = log
     spec = {"brokers": brokers(nb), "topics": topics, "logs": logs}
+    common.maybe_order(rng, spec)
     ops = boot_ops(spec)
     fetches = []
     for _ in range(rng.randint(3, 8)):
